@@ -29,6 +29,9 @@ type Req struct {
 	Class  string `json:"class,omitempty"`  // MavenClassifier
 	AType  string `json:"atype,omitempty"`  // MavenArtifactType
 	Origin string `json:"origin,omitempty"` // MavenDependencyOrigin
+	// TwinDevOpt: the package is listed a second time, in devDependencies and optionalDependencies at once
+	// (npm), with the same requirement text.
+	TwinDevOpt bool `json:"twin,omitempty"`
 }
 
 // Ver is one concrete version with its attributes and requirements.
@@ -152,6 +155,11 @@ func (u Universe) Requirements(v Ver) []resolve.RequirementVersion {
 	out := make([]resolve.RequirementVersion, 0, len(v.Reqs))
 	for _, r := range v.Reqs {
 		out = append(out, resolve.RequirementVersion{VersionKey: u.ReqVK(r), Type: r.DepType()})
+		if r.TwinDevOpt {
+			t := r
+			t.Dev, t.Opt, t.TwinDevOpt = true, true, false
+			out = append(out, resolve.RequirementVersion{VersionKey: u.ReqVK(t), Type: t.DepType()})
+		}
 	}
 	return out
 }
